@@ -42,3 +42,27 @@ pub fn same(a: &[u8], b: &[u8]) -> bool {
     }
     true
 }
+
+/// Sequential replacement for `Weak::upgrade` (`#[kani::stub(std::sync::Weak::upgrade, weak_upgrade_seq)]`).
+/// The real one is a compare-exchange retry loop; Kani executes atomics sequentially, so the first
+/// attempt always succeeds, but CBMC cannot see that and unwinds the retry loop (and everything
+/// reachable from it) to the bound at every call site. Same result, no loop.
+/// Needs `#![cfg_attr(kani, feature(allocator_api))]` in the crate root (added by a rewrite).
+#[repr(C)]
+struct ArcInnerMirror<T: ?Sized> { strong: std::sync::atomic::AtomicUsize, weak: std::sync::atomic::AtomicUsize, data: T }
+/// Besides the retry loop, the real `upgrade` (and `Weak::as_ptr`/`strong_count`) first ask "is this the
+/// dangling sentinel of `Weak::new()`?" by comparing the pointer's *address* with usize::MAX; CBMC
+/// treats addresses as unknown, so that test forks every later access through the upgraded `Arc`
+/// into two cases and constant propagation is lost. The stub reads the control block directly
+/// (`ArcInner` is `#[repr(C)] { strong, weak, data }`); a `Weak::new()` sentinel would be reported
+/// by CBMC as an invalid dereference here, i.e. loudly, not silently.
+pub fn weak_upgrade_seq<T: ?Sized, A: std::alloc::Allocator + Clone + std::alloc::AllocatorClone>(w: &std::sync::Weak<T, A>) -> Option<std::sync::Arc<T, A>> {
+    assert!(std::mem::size_of::<std::sync::Weak<T, A>>() == std::mem::size_of::<*const ArcInnerMirror<T>>());
+    unsafe {
+        let inner: *const ArcInnerMirror<T> = std::mem::transmute_copy(w);
+        let strong = &(*inner).strong;
+        if strong.load(std::sync::atomic::Ordering::Relaxed) == 0 { return None; }
+        strong.fetch_add(1, std::sync::atomic::Ordering::Relaxed);
+        Some(std::sync::Arc::from_raw_in(&(*inner).data as *const T, w.allocator().clone()))
+    }
+}
